@@ -70,6 +70,19 @@ func (s *Sim) decide(c *call) string {
 	if f, ok := s.explicit[c.key]; ok {
 		return f
 	}
+	if c.kind == callSQL && s.faultEligible(c.src) {
+		now := s.now()
+		for i := range s.spec.StmtFail {
+			sf := &s.spec.StmtFail[i]
+			if sf.Host == c.dst && now >= ms(sf.FromMs) && now < ms(sf.ToMs) && strings.HasPrefix(c.query, sf.Prefix) {
+				s.stmtFailHit = true
+				if sf.Errno == 0 {
+					return "hang"
+				}
+				return "err:" + strconv.Itoa(sf.Errno)
+			}
+		}
+	}
 	if !s.ratesActive() || !s.faultEligible(c.src) {
 		return ""
 	}
@@ -119,7 +132,12 @@ func (s *Sim) noteFault(key, f string) {
 		kind = "sql_hang"
 	}
 	s.stats.Faults[kind]++
-	s.fired = append(s.fired, ExplicitFault{Key: key, Fault: f})
+	if s.stmtFailHit {
+		s.stmtFailHit = false
+		s.stats.Faults["stmt_fail_window"]++
+	} else {
+		s.fired = append(s.fired, ExplicitFault{Key: key, Fault: f})
+	}
 	s.mon.onFault(key, f)
 	s.trace("FAULT %s %s", key, f)
 }
